@@ -4,8 +4,12 @@
 From Coq Require Import QArith Qabs.
 From Zeno Require Import Base Expr ExprSpec Seq.
 
+(* equal within relative tolerance 1e-9; float64 overflow (+-Inf, printed by the harness as +-10^400)
+   is outside the model: two values beyond 1e300 of the same sign count as equal *)
+Definition q_huge (a:Q) : bool := Qle_bool (inject_Z (10 ^ 300)) (Qabs a).
 Definition q_close (a b:Q) : bool :=
-  Qle_bool (Qabs (a - b)) (Qabs b * (1 # 1000000000) + (1 # 1000000000)).
+  (q_huge a && q_huge b && Bool.eqb (Qle_bool 0 a) (Qle_bool 0 b))
+  || Qle_bool (Qabs (a - b)) (Qabs b * (1 # 1000000000) + (1 # 1000000000)).
 Definition qres_close (a b:Q * bool) : bool :=
   Bool.eqb (snd a) (snd b) && (negb (snd a) || q_close (fst a) (fst b)).
 
